@@ -56,6 +56,7 @@ pub fn run(args: &Args) -> SubResult {
             check_c06: true,
             check_c10: true,
             check_ledger: true,
+            check_presence: false,
         };
         let s = Search { harness: "c10_static", cfg, init: vec![], moves: vec![moves.clone()], depth, dedup: true, max_hist: if thorough { 400_000 } else { 30_000 } };
         run_search(res, &s);
